@@ -907,6 +907,48 @@ def gen_history(rng, n, main, enable_gs_junk):
     return steps
 
 
+_COLLIDING = None
+
+
+def colliding_keys():
+    """pairs of distinct keys with the same 32-bit hash value, found by brute
+    force with the CRC table read from the library source (a hash table is
+    only as good as its handling of equal hashes)"""
+    global _COLLIDING
+    if _COLLIDING is not None:
+        return _COLLIDING
+    pairs = [(b"daqicud", b"pucqfak")]
+    try:
+        import re
+        import build
+        src = open(os.path.join(build.REPO, "src", "vnaproperty.c")).read()
+        body = src[src.index("crc32c_table[]"):]
+        body = body[:body.index("};")]
+        table = [int(x, 16) for x in re.findall(r"0x[0-9a-fA-F]+", body)]
+        if len(table) == 256:
+            r = random.Random(1313)
+            seen = {}
+            found = []
+            letters = b"abcdefghijklmnopqrstuvwxyz"
+            for _ in range(400000):
+                k = bytes(r.choice(letters) for _ in range(7))
+                v = 0xFFFFFFFF
+                for b in k:
+                    v = ((v << 8) & 0xFFFFFFFF) ^ table[(v >> 24) ^ b]
+                o = seen.get(v)
+                if o is not None and o != k:
+                    found.append((o, k))
+                    if len(found) >= 12:
+                        break
+                seen[v] = k
+            if found:
+                pairs = found
+    except Exception:
+        pass
+    _COLLIDING = pairs
+    return pairs
+
+
 def gen_sized(rng, main):
     """a list and a map grown to a size around a power of two (where their
     vectors / hash tables are exactly full or have just grown), then deletes,
@@ -924,7 +966,15 @@ def gen_sized(rng, main):
     n = rng.choice((6, 7, 8, 9, 15, 16, 17, 31, 32, 33))
     kind = rng.choice(("list", "list", "map", "nested"))
     base = {"list": b"", "map": b"", "nested": b"top.l"}[kind]
+    special = []
     if kind == "map":
+        if rng.random() < 0.6:
+            # keys with equal hash values, entered before the table grows
+            cp = colliding_keys()
+            for a_, b_ in rng.sample(cp, min(len(cp), rng.choice((1, 1, 2)))):
+                special += [a_, b_] if rng.random() < 0.5 else [b_, a_]
+        for k_ in special:
+            do(("set", main, k_ + b"=c"))
         for i in range(n):
             do(("set", main, b"key%d=%d" % (i, i)))
     else:
@@ -934,6 +984,17 @@ def gen_sized(rng, main):
         if kind == "map":
             k = rng.randrange(0, n + 3)
             r = rng.random()
+            if special and rng.random() < 0.4:
+                ks = rng.choice(special)
+                if r < 0.3:
+                    do(("delete", main, ks))
+                elif r < 0.55:
+                    do(("set", main, ks + b"=again"))
+                elif r < 0.8:
+                    do(("get", main, ks))
+                else:
+                    do(("type", main, ks))
+                continue
             if r < 0.35:
                 do(("delete", main, b"key%d" % k))
             elif r < 0.6:
